@@ -111,6 +111,9 @@ def run(tier):
                 meta["p%d/%s" % (i, name)] = set(S)
             nlines = src.count("\n") + 1
             dbg_cases.append({"id": "p%d/bp_every_line" % i, "src": src, "hook": "dap", "breakpoints": list(range(1, nlines + 1)), "dialect": "internal", "max_stops": 20000})
+            # a malformed expression sent to evaluate() at every stop (a half-typed watch expression): the request fails, the session must go on unchanged
+            dbg_cases.append({"id": "p%d/bp_badeval" % i, "src": src, "hook": "dap", "breakpoints": ml, "dialect": "internal", "evaluate": "1 +"})
+            meta["p%d/bp_badeval" % i] = set(ml)
             dbg_cases.append({"id": "p%d/bp_cond_true" % i, "src": src, "hook": "dap", "breakpoints": [[l, "1 == 1"] for l in ml], "dialect": "internal"})
             meta["p%d/bp_cond_true" % i] = set(ml)
             dbg_cases.append({"id": "p%d/bp_cond_false" % i, "src": src, "hook": "dap", "breakpoints": [[l, "1 == 2"] for l in ml], "dialect": "internal"})
@@ -255,7 +258,11 @@ def run(tier):
                                     rep.violation("c18:variable-value", "[%s] %s: at the stop on line %d the debugger shows %s = %r but the statement then emits %r" % (
                                         flavor, cid, l, names[0], have[0][1], want_s), wit)
                                     break
-                        if sp[3] is not None and sp[3] != ["2", "int"]:
+                        if cfgname == "bp_badeval":
+                            if isinstance(sp[3], list) and sp[3] and sp[3][0] != "err":
+                                rep.violation("c18:evaluate-malformed-accepted", "[%s] %s: evaluate('1 +') at a stop gave %s" % (flavor, cid, sp[3]), wit)
+                                break
+                        elif sp[3] is not None and sp[3] != ["2", "int"]:
                             rep.violation("c18:evaluate", "[%s] %s: evaluate('1 + 1') at a stop gave %s" % (flavor, cid, sp[3]), wit)
                             break
                 elif cfgname == "step_into":
